@@ -71,6 +71,96 @@ type canonEnv struct {
 	depth int
 	// bool3: if set, pure bitwise expressions over named leaves are replaced by their truth table
 	bool3 bool
+	// rangeOf: a value (a loop counter) known to lie in [lo, hi): a phi that joins the two arms of a test of that value
+	// against a constant takes the input of the arm the range selects (`if j < 16 { t = T0 } else { t = T1 }`)
+	rangeOf *ssa.Phi
+	rangeLo int64
+	rangeHi int64
+}
+
+// pickPhi: the input of phi selected by the range assumption, if the phi joins a diamond on `rangeOf op K`
+func (e *canonEnv) pickPhi(phi *ssa.Phi) (ssa.Value, bool) {
+	var env *canonEnv
+	for x := e; x != nil; x = x.outer {
+		if x.rangeOf != nil {
+			env = x
+			break
+		}
+	}
+	if env == nil || len(phi.Edges) != 2 {
+		return nil, false
+	}
+	b := phi.Block()
+	d := b.Idom()
+	if d == nil || len(d.Succs) != 2 {
+		return nil, false
+	}
+	ifi, ok := d.Instrs[len(d.Instrs)-1].(*ssa.If)
+	if !ok {
+		return nil, false
+	}
+	bo, ok := ifi.Cond.(*ssa.BinOp)
+	if !ok {
+		return nil, false
+	}
+	op := bo.Op
+	var k int64
+	if kk, isK := constInt(bo.Y); isK && stripConvAll(bo.X) == ssa.Value(env.rangeOf) {
+		k = kk
+	} else if kk, isK := constInt(bo.X); isK && stripConvAll(bo.Y) == ssa.Value(env.rangeOf) {
+		k = kk
+		switch op {
+		case token.LSS:
+			op = token.GTR
+		case token.LEQ:
+			op = token.GEQ
+		case token.GTR:
+			op = token.LSS
+		case token.GEQ:
+			op = token.LEQ
+		}
+	} else {
+		return nil, false
+	}
+	lo, hi := env.rangeLo, env.rangeHi-1 // inclusive
+	truth := -1
+	switch op {
+	case token.LSS:
+		if hi < k {
+			truth = 1
+		} else if lo >= k {
+			truth = 0
+		}
+	case token.LEQ:
+		if hi <= k {
+			truth = 1
+		} else if lo > k {
+			truth = 0
+		}
+	case token.GTR:
+		if lo > k {
+			truth = 1
+		} else if hi <= k {
+			truth = 0
+		}
+	case token.GEQ:
+		if lo >= k {
+			truth = 1
+		} else if hi < k {
+			truth = 0
+		}
+	}
+	if truth < 0 {
+		return nil, false
+	}
+	taken := d.Succs[1-truth] // Succs[0] is the true successor
+	for i, p := range b.Preds {
+		if (p == d && taken == b) || (taken != b && (taken == p || taken.Dominates(p))) {
+			// the other predecessor must belong to the other arm
+			return phi.Edges[i], true
+		}
+	}
+	return nil, false
 }
 
 func newCanon(names map[ssa.Value]string) *canonEnv {
@@ -181,6 +271,9 @@ func (e *canonEnv) canon(v ssa.Value) *X {
 	case *ssa.Extract:
 		return Op(fmt.Sprintf("extract%d", x.Index), e.canon(x.Tuple))
 	case *ssa.Phi:
+		if v, ok := e.pickPhi(x); ok {
+			return e.canon(v)
+		}
 		e.fresh++
 		return L(fmt.Sprintf("?phi%d", e.fresh))
 	case *ssa.Parameter:
@@ -224,6 +317,17 @@ func (e *canonEnv) canonAmt(v ssa.Value) *X {
 	v = stripConvAll(v)
 	if c, ok := constInt(v); ok {
 		return K(uint64(((c % 32) + 32) % 32))
+	}
+	// a 32-bit rotation only depends on the amount modulo 32: k%32, k&31 and integer conversions of k are k
+	if s, ok := e.subst[v]; ok && e.outer != nil {
+		return e.outer.canonAmt(s)
+	}
+	if b, ok := v.(*ssa.BinOp); ok {
+		if k, isK := constInt(b.Y); isK && (b.Op == token.REM && k == 32 || b.Op == token.AND && k == 31) {
+			if bt, isB := b.X.Type().Underlying().(*types.Basic); isB && bt.Info()&types.IsUnsigned != 0 || b.Op == token.AND {
+				return e.canonAmt(b.X)
+			}
+		}
 	}
 	return e.canon(v)
 }
